@@ -220,41 +220,48 @@ def operations(w: HistWorld):
     ]
 
 
-def explore(prog: Program, length: int):
-    """yield (history labels, first stale lookup or None, detail)"""
-    probe = HistWorld(prog)
-    nops = len(operations(probe))
-    for seq in itertools.product(range(nops), repeat=length):
-        w = HistWorld(prog)
-        ops = operations(w)
-        it = w.interp()
-        labels = []
-        bad = None
-        for k in seq:
-            label, meth, args, kwargs = ops[k]
-            labels.append(label)
-            read_all(w, it, cached=True)  # populate every cache
-            fi = prog.function("sym_metanet.network", f"Network.{meth}")
-            try:
-                it.call(FuncV(fi, w.net, defcls=NET), list(args), dict(kwargs), None, None)
-            except Raised as e:
-                if "[raises]" not in label:
-                    bad = ("raises", f"{label} raises {e.exc}: {e.msg}")
-                    break
-            got = read_all(w, it, cached=True)
-            want = read_all(w, it, cached=False)
-            for key in want:
-                if got.get(key) != want[key]:
-                    bad = (key, f"after {' ; '.join(labels)}: lookup `{key}` gives {_short(got.get(key))} but the graph "
-                                f"says {_short(want[key])}")
-                    break
-            if not bad:
-                d = views_vs_graph(w, it)
-                if d:
-                    bad = ("link views", f"after {' ; '.join(labels)}: {d}")
-            if bad:
+def n_operations(prog: Program) -> int:
+    return len(operations(HistWorld(prog)))
+
+
+def explore_one(prog: Program, seq):
+    """one history: (labels, first discrepancy or None)"""
+    w = HistWorld(prog)
+    ops = operations(w)
+    it = w.interp()
+    labels = []
+    bad = None
+    for k in seq:
+        label, meth, args, kwargs = ops[k]
+        labels.append(label)
+        read_all(w, it, cached=True)  # populate every cache
+        fi = prog.function("sym_metanet.network", f"Network.{meth}")
+        try:
+            it.call(FuncV(fi, w.net, defcls=NET), list(args), dict(kwargs), None, None)
+        except Raised as e:
+            if "[raises]" not in label:
+                bad = ("raises", f"{label} raises {e.exc}: {e.msg}")
                 break
-        yield labels, bad
+        got = read_all(w, it, cached=True)
+        want = read_all(w, it, cached=False)
+        for key in want:
+            if got.get(key) != want[key]:
+                bad = (key, f"after {' ; '.join(labels)}: lookup `{key}` gives {_short(got.get(key))} but the graph "
+                            f"says {_short(want[key])}")
+                break
+        if not bad:
+            d = views_vs_graph(w, it)
+            if d:
+                bad = ("link views", f"after {' ; '.join(labels)}: {d}")
+        if bad:
+            break
+    return labels, bad
+
+
+def explore(prog: Program, length: int):
+    """yield (history labels, first stale lookup or None) for every history of `length` calls"""
+    for seq in itertools.product(range(n_operations(prog)), repeat=length):
+        yield explore_one(prog, seq)
 
 
 def _short(x):
